@@ -31,8 +31,90 @@ func (e *Exec) val(fr *frame, v ssa.Value) Val {
 	return Val{Bad: "undefined SSA value " + v.Name(), GoT: v.Type(), S: e.ctx.sortOf(v.Type())}
 }
 
+// constGlobal: g is assigned only by its package initialiser and its address
+// is used for nothing but loads, so its value is a constant of the program.
+func (e *Exec) constGlobal(g *ssa.Global) bool {
+	if v, ok := e.w.constGlobals[g]; ok {
+		return v
+	}
+	ok := true
+	for _, m := range g.Pkg.Members {
+		fn, isFn := m.(*ssa.Function)
+		if !isFn {
+			continue
+		}
+		fns := append([]*ssa.Function{fn}, fn.AnonFuncs...)
+		for _, f := range fns {
+			isInit := fn.Name() == "init" || strings.HasPrefix(fn.Name(), "init#")
+			for _, b := range f.Blocks {
+				for _, in := range b.Instrs {
+					for _, op := range in.Operands(nil) {
+						if *op != ssa.Value(g) {
+							continue
+						}
+						switch x := in.(type) {
+						case *ssa.UnOp:
+						case *ssa.DebugRef:
+						case *ssa.Store:
+							if !(isInit && x.Addr == ssa.Value(g)) {
+								ok = false
+							}
+						default:
+							ok = false
+						}
+					}
+				}
+			}
+		}
+	}
+	// methods of types of the package
+	for _, f := range e.w.Funcs {
+		if f.Pkg != g.Pkg || f.Signature.Recv() == nil {
+			continue
+		}
+		for _, b := range f.Blocks {
+			for _, in := range b.Instrs {
+				for _, op := range in.Operands(nil) {
+					if *op == ssa.Value(g) {
+						switch in.(type) {
+						case *ssa.UnOp, *ssa.DebugRef:
+						default:
+							ok = false
+						}
+					}
+				}
+			}
+		}
+	}
+	if !g.Object().Exported() {
+		// unexported: other packages cannot reach it
+	} else {
+		for _, f := range e.w.Funcs {
+			if f.Pkg == g.Pkg || f.Pkg == nil {
+				continue
+			}
+			for _, b := range f.Blocks {
+				for _, in := range b.Instrs {
+					for _, op := range in.Operands(nil) {
+						if *op == ssa.Value(g) {
+							switch in.(type) {
+							case *ssa.UnOp, *ssa.DebugRef:
+							default:
+								ok = false
+							}
+						}
+					}
+				}
+			}
+		}
+	}
+	e.w.constGlobals[g] = ok
+	return ok
+}
+
 func (e *Exec) globalRef(g *ssa.Global) string {
 	name := "glob$" + sanitize(g.Pkg.Pkg.Name()+"."+g.Name())
+	e.globalByRef[name] = g
 	if _, ok := e.ctx.declared[name]; !ok {
 		e.ctx.declare(name, sInt)
 		e.ctx.assume(and(lt("0", name), lt(name, e.nextRef0)))
@@ -47,6 +129,20 @@ func (e *Exec) globalRef(g *ssa.Global) string {
 func (e *Exec) set(fr *frame, v ssa.Value, val Val) {
 	if val.GoT == nil {
 		val.GoT = v.Type()
+	}
+	// name long terms so that verification conditions stay small
+	if len(val.T) > 60 && val.S != "" && val.Bad == "" && val.Addr == nil && val.Clo == nil {
+		c := e.ctx.fresh(v.Name(), val.S)
+		e.ctx.assume(eq(c, val.T))
+		val.T = c
+	}
+	for i := range val.Tup {
+		t := &val.Tup[i]
+		if len(t.T) > 60 && t.S != "" && t.Bad == "" && t.Addr == nil && t.Clo == nil {
+			c := e.ctx.fresh(v.Name(), t.S)
+			e.ctx.assume(eq(c, t.T))
+			t.T = c
+		}
 	}
 	fr.vals[v] = val
 }
@@ -134,9 +230,10 @@ func (e *Exec) step(fr *frame, st *State, instr ssa.Instruction) {
 	case *ssa.MakeMap:
 		mt := in.Type().Underlying().(*types.Map)
 		r := e.alloc(st)
-		md, _ := e.mapHeaps(mt)
+		md, mv := e.mapHeaps(mt)
 		ks := e.ctx.sortOf(mt.Key())
 		e.setHeap(st, md, sto(e.heapTerm(st, md), r, fmt.Sprintf("((as const %s) false)", arraySort(ks, sBool))))
+		e.setHeap(st, mv, sto(e.heapTerm(st, mv), r, e.constArray(ks, mt.Elem())))
 		e.set(fr, in, Val{T: r, S: sInt})
 	case *ssa.MakeSlice:
 		l := e.tval(fr, st, in.Len)
@@ -284,6 +381,14 @@ func (e *Exec) stepUnOp(fr *frame, st *State, in *ssa.UnOp) {
 		e.set(fr, in, Val{T: not(x.T), S: sBool})
 	case token.SUB:
 		x := e.tval(fr, st, in.X)
+		if e.ctx.bv {
+			if x.S == sF {
+				e.set(fr, in, Val{T: app("fp.neg", x.T), S: sF})
+			} else {
+				e.set(fr, in, Val{T: app("bvneg", x.T), S: x.S})
+			}
+			return
+		}
 		if x.S == sF {
 			e.set(fr, in, Val{T: app("f_neg", x.T), S: sF})
 		} else {
@@ -326,15 +431,16 @@ func (e *Exec) stepIndexAddr(fr *frame, st *State, in *ssa.IndexAddr) {
 
 func (e *Exec) mapHas(st *State, mt *types.Map, m, k string) string {
 	md, _ := e.mapHeaps(mt)
-	return and(not(eq(m, "0")), sel(sel(e.heapTerm(st, md), m), k))
+	return sel(sel(e.heapTerm(st, md), m), k)
 }
 func (e *Exec) mapLen(st *State, mt *types.Map, m string) string {
 	md, _ := e.mapHeaps(mt)
-	return ite(eq(m, "0"), "0", app(e.cardFn(e.ctx.sortOf(mt.Key())), sel(e.heapTerm(st, md), m)))
+	return app(e.cardFn(e.ctx.sortOf(mt.Key())), sel(e.heapTerm(st, md), m))
 }
 func (e *Exec) mapGet(st *State, mt *types.Map, m, k string) string {
 	_, mv := e.mapHeaps(mt)
-	return ite(e.mapHas(st, mt, m, k), sel(sel(e.heapTerm(st, mv), m), k), e.ctx.zero(mt.Elem()))
+	e.heapTerm(st, "MD$"+strings.TrimPrefix(mv, "MV$"))
+	return sel(sel(e.heapTerm(st, mv), m), k)
 }
 
 func (e *Exec) stepLookup(fr *frame, st *State, in *ssa.Lookup) {
@@ -384,7 +490,25 @@ func (e *Exec) mapDelete(fr *frame, st *State, mt *types.Map, m, k string, pos t
 	e.frameCheck(fr, s2, mv, m, pos)
 	e.rangeStable(fr, s2, mv, m, pos)
 	mdt := e.heapTerm(st, md)
+	mvt := e.heapTerm(st, mv)
 	e.setHeap(st, md, ite(nonnil, sto(mdt, m, sto(sel(mdt, m), k, "false")), mdt))
+	e.setHeap(st, mv, ite(nonnil, sto(mvt, m, sto(sel(mvt, m), k, e.ctx.zero(mt.Elem()))), mvt))
+}
+
+// constArray: the array over key sort ks whose every entry is the zero value
+// of Go type vt.
+func (e *Exec) constArray(ks string, vt types.Type) string {
+	vs := e.ctx.sortOf(vt)
+	z := e.ctx.zero(vt)
+	if vs == sInt || vs == sBool {
+		return fmt.Sprintf("((as const %s) %s)", arraySort(ks, vs), z)
+	}
+	name := "zeromap$" + sanitize(ks) + "$" + sanitize(vs)
+	if _, ok := e.ctx.declared[name]; !ok {
+		e.ctx.declare(name, arraySort(ks, vs))
+		e.ctx.assume(fmt.Sprintf("(forall ((k %s)) (! (= (select %s k) %s) :pattern ((select %s k))))", ks, name, z, name))
+	}
+	return name
 }
 
 func (e *Exec) stepSlice(fr *frame, st *State, in *ssa.Slice) {
@@ -512,7 +636,8 @@ func (e *Exec) stepNext(fr *frame, st *State, in *ssa.Next) {
 	st.ghost[name+"$visited"] = Val{T: ite(okc, sto(vis.T, k, "true"), vis.T), S: vis.S}
 	st.ghost[name+"$n"] = Val{T: ite(okc, add(n.T, "1"), n.T), S: sInt}
 	st.ghost[name+"$key"] = Val{T: k, S: ks}
-	v := Val{T: e.mapGet(st, mt, m, k), S: e.ctx.sortOf(vt), GoT: vt}
+	_ = vt
+	v := Val{T: e.mapGet(st, mt, m, k), S: e.ctx.sortOf(mt.Elem()), GoT: mt.Elem()}
 	e.set(fr, in, Val{Tup: []Val{{T: okc, S: sBool}, {T: k, S: ks, GoT: mt.Key()}, v}})
 }
 
